@@ -79,10 +79,75 @@ func (a *ArrCopy) Select(tt *TermTable, i *Term) *Term {
 	return tt.Ite(in, a.src.Select(tt, si), a.base.Select(tt, i))
 }
 
+// ArrChunked: an overlay of elements stored at CONCRETE indices, kept in 256-element chunks that are shared between
+// versions (a store copies the chunk directory and one chunk). Used for large arrays only (real 64 KiB buffers), where
+// a chain of ArrStore nodes makes every read linear in the number of stores and a store into ArrConcrete copies the
+// whole array. Semantically identical to the same stores as an ArrStore chain.
+type ArrChunked struct {
+	base Arr
+	top  [][]*Term
+}
+
+const arrBig = 1024 // arrays / indices below this keep the simple representations
+
+func (a *ArrChunked) EW() int { return a.base.EW() }
+
+func (a *ArrChunked) Select(tt *TermTable, i *Term) *Term {
+	if i.IsConst() {
+		c := i.val >> 8
+		if c < uint64(len(a.top)) && a.top[c] != nil {
+			if v := a.top[c][i.val&255]; v != nil {
+				return v
+			}
+		}
+		return a.base.Select(tt, i)
+	}
+	res := a.base.Select(tt, i)
+	for c, ch := range a.top {
+		for k, v := range ch {
+			if v != nil {
+				res = tt.Ite(tt.Eq(i, tt.BV(uint64(c)<<8|uint64(k), 64)), v, res)
+			}
+		}
+	}
+	return res
+}
+
+func (a *ArrChunked) with(idx uint64, v *Term) *ArrChunked {
+	c := idx >> 8
+	n := uint64(len(a.top))
+	if c >= n {
+		n = c + 1
+	}
+	top := make([][]*Term, n)
+	copy(top, a.top)
+	ch := make([]*Term, 256)
+	if top[c] != nil {
+		copy(ch, top[c])
+	}
+	ch[idx&255] = v
+	top[c] = ch
+	return &ArrChunked{base: a.base, top: top}
+}
+
 func storeArr(tt *TermTable, base Arr, i, v *Term) Arr {
 	// overwrite of the same concrete index collapses
 	if s, ok := base.(*ArrStore); ok && s.i == i {
 		return &ArrStore{base: s.base, i: i, v: v}
+	}
+	if i.IsConst() && i.val < 1<<24 {
+		switch b := base.(type) {
+		case *ArrChunked:
+			return b.with(i.val, v)
+		case *ArrConcrete:
+			if len(b.data) > arrBig {
+				return (&ArrChunked{base: b}).with(i.val, v)
+			}
+		default:
+			if i.val >= arrBig {
+				return (&ArrChunked{base: base}).with(i.val, v)
+			}
+		}
 	}
 	if c, ok := base.(*ArrConcrete); ok && i.IsConst() && v.IsConst() && i.val < uint64(len(c.data)) {
 		d := append([]uint64(nil), c.data...)
